@@ -1673,6 +1673,9 @@ class Switch(ChoiceMap):
     def filter(self, selection: Selection | Flag) -> ChoiceMap:
         return Switch.build(self.idx, [chm.filter(selection) for chm in self.chms])
 
+    def static_is_empty(self) -> bool:
+        return all(chm.static_is_empty() for chm in self.chms)
+
     def get_value(self) -> Any:
         vs = [chm.get_value() for chm in self.chms]
         entries = [Mask.build(v) for v in vs if v is not None]
